@@ -38,9 +38,14 @@ StatsExact(lv, st) ==
      /\ st.res >= st.used
      /\ (st.blk = 0) = (st.res = 0)
 
+(* Statistics are optional in a report: a concurrent trace cannot sample them atomically with the operation. *)
+Known(st) == "res" \in DOMAIN st
+StatsOK(lv, st) == Known(st) => StatsExact(lv, st)
+ResOf(st) == IF Known(st) THEN st.res ELSE prevRes
+
 (* Retention policy when nothing is live. *)
 EmptyPolicy(lv, st) ==
-  DOMAIN lv = {} => st.blk <= (IF opts.imm THEN 0 ELSE opts.pools)
+  (Known(st) /\ DOMAIN lv = {}) => st.blk <= (IF opts.imm THEN 0 ELSE opts.pools)
 
 NoOverlapWith(lv, rx, rw, len) ==
   \A j \in DOMAIN lv : /\ Disjoint(rx, len, lv[j].rx, lv[j].len)
@@ -62,17 +67,17 @@ AllocOk(id, req, rx, rw, len, obs, st) ==
   /\ (~opts.dual => rx = rw)
   /\ NoOverlapWith(live, rx, rw, len)             \* disjoint from every live span, in both views
   /\ live' = [j \in Ids \cup {id} |-> IF j = id THEN [rx |-> rx, rw |-> rw, len |-> len, orig |-> len] ELSE live[j]]
-  /\ StatsExact(live', st)
+  /\ StatsOK(live', st)
   \* released / shrunk-away memory is reusable: a request equal to what was just freed needs no new block
-  /\ (lastFree # 0 /\ ((req + opts.gran - 1) \div opts.gran) * opts.gran = lastFree => st.res = prevRes)
+  /\ (lastFree # 0 /\ ((req + opts.gran - 1) \div opts.gran) * opts.gran = lastFree /\ Known(st) => st.res = prevRes)
   /\ lastFree' = 0
-  /\ prevRes' = st.res
+  /\ prevRes' = ResOf(st)
   /\ UNCHANGED opts
 
 AllocRefused(req, obs, st) ==
   /\ obs.intact
-  /\ StatsExact(live, st)
-  /\ st.res = prevRes
+  /\ StatsOK(live, st)
+  /\ ResOf(st) = prevRes
   /\ lastFree' = 0
   /\ UNCHANGED <<live, opts, prevRes>>
 
@@ -82,12 +87,12 @@ ReleaseOk(id, obs, st) ==
   /\ obs.intact
   /\ (opts.fill /\ obs.mapped => obs.filled)
   /\ live' = [j \in Ids \ {id} |-> live[j]]
-  /\ StatsExact(live', st)
+  /\ StatsOK(live', st)
   /\ EmptyPolicy(live', st)
   \* (with several pools the pool is chosen by the size requested at allocation time, so only a span that still
   \*  has its original size is guaranteed to be served from the hole it leaves)
-  /\ lastFree' = IF st.res = prevRes /\ (~opts.multi \/ live[id].len = live[id].orig) THEN live[id].len ELSE 0
-  /\ prevRes' = st.res
+  /\ lastFree' = IF Known(st) /\ st.res = prevRes /\ (~opts.multi \/ live[id].len = live[id].orig) THEN live[id].len ELSE 0
+  /\ prevRes' = ResOf(st)
   /\ UNCHANGED opts
 
 (* ---- shrink (n > 0) / write with truncation ---- *)
@@ -98,9 +103,9 @@ ShrinkOk(id, n, rx, rw, len, obs, st) ==
   /\ len >= n /\ len <= live[id].len /\ len % opts.gran = 0
   /\ (opts.fill /\ len < live[id].len => obs.filled)
   /\ live' = [live EXCEPT ![id].len = len]
-  /\ StatsExact(live', st)
-  /\ lastFree' = IF st.res = prevRes /\ ~opts.multi THEN live[id].len - len ELSE 0
-  /\ prevRes' = st.res
+  /\ StatsOK(live', st)
+  /\ lastFree' = IF Known(st) /\ st.res = prevRes /\ ~opts.multi THEN live[id].len - len ELSE 0
+  /\ prevRes' = ResOf(st)
   /\ UNCHANGED opts
 
 (* shrinking to a size larger than the span must not grow it *)
@@ -108,7 +113,7 @@ ShrinkRefused(id, n, len, obs, st) ==
   /\ id \in Ids /\ n > live[id].len
   /\ obs.intact
   /\ len = live[id].len
-  /\ StatsExact(live, st)
+  /\ StatsOK(live, st)
   /\ lastFree' = 0
   /\ UNCHANGED <<live, opts, prevRes>>
 
@@ -117,13 +122,13 @@ QueryLiveOk(id, rx, rw, len, obs, st) ==
   /\ id \in Ids
   /\ rx = live[id].rx /\ rw = live[id].rw /\ len = live[id].len
   /\ obs.intact
-  /\ StatsExact(live, st)
+  /\ StatsOK(live, st)
   /\ lastFree' = 0
   /\ UNCHANGED <<live, opts, prevRes>>
 
 QueryForeignRefused(obs, st) ==
   /\ ~obs.nonnull                     \* no span is handed back
-  /\ StatsExact(live, st)
+  /\ StatsOK(live, st)
   /\ lastFree' = 0
   /\ UNCHANGED <<live, opts, prevRes>>
 
@@ -132,7 +137,7 @@ WriteOk(id, rx, rw, len, obs, st) ==
   /\ id \in Ids
   /\ rx = live[id].rx /\ rw = live[id].rw /\ len = live[id].len
   /\ obs.intact                       \* the written span holds the new contents, all others their old ones
-  /\ StatsExact(live, st)
+  /\ StatsOK(live, st)
   /\ lastFree' = 0
   /\ UNCHANGED <<live, opts, prevRes>>
 
@@ -140,10 +145,10 @@ WriteOk(id, rx, rw, len, obs, st) ==
 ResetOk(policy, init, st) ==
   /\ init
   /\ live' = <<>>
-  /\ StatsExact(live', st)
-  /\ st.blk <= (IF policy = "hard" \/ opts.imm THEN 0 ELSE opts.pools)
+  /\ StatsOK(live', st)
+  /\ Known(st) => st.blk <= (IF policy = "hard" \/ opts.imm THEN 0 ELSE opts.pools)
   /\ lastFree' = 0
-  /\ prevRes' = st.res
+  /\ prevRes' = ResOf(st)
   /\ UNCHANGED opts
 
 (* ---- invariants over the contract state (hold by construction of the actions; checked anyway) ---- *)
